@@ -387,7 +387,258 @@ def c19_16(ctx):
     return c17_5(ctx)
 
 
+def c19_17(ctx):
+    """the envelope codec evaluated: (a) serialize for the four networks × every command length 0..12 × payload lengths on both sides of the
+    compact-size and of short-read boundaries equals magic ‖ command zero-padded to 12 ‖ length (4 LE) ‖ sha256d(payload)[:4] ‖ payload, and
+    parse gives the same command and payload back; (b) every single-byte corruption (three bit patterns per byte) of a sample envelope and
+    every truncation of it: a corrupted magic, length, checksum or payload byte and every truncated payload is refused; a corrupted command
+    byte (the protocol has no checksum over it) parses to the corrupted command.  Hashing is the standard library's"""
+    import hashlib
+    from sa.cells import ClassRef, Evaluator, FileStandIn, Obj, Raised, Undecided
+    spec_p, spec_s = "network:NetworkEnvelope.parse", "network:NetworkEnvelope.serialize"
+    mod, fn = rl.get(ctx, spec_p)
+    _, fn_s = rl.get(ctx, spec_s)
+    MAGICS = {"mainnet": b"\xf9\xbe\xb4\xd9", "testnet": b"\x0b\x11\x09\x07", "signet": b"\x0a\x03\xcf\x40", "regtest": b"\xfa\xbf\xb5\xda"}
+    C = ClassRef("network", "NetworkEnvelope")
+
+    def ref(net, command, payload):
+        return MAGICS[net] + command + bytes(12 - len(command)) + len(payload).to_bytes(4, "little") + hashlib.sha256(hashlib.sha256(payload).digest()).digest()[:4] + payload
+    out = []
+    n = 0
+    try:
+        bad = None
+        for net in MAGICS:
+            for clen in range(0, 13):
+                for plen in ((0, 1, 7, 252, 253, 70000) if net == "mainnet" or clen in (0, 7, 12) else (3,)):
+                    if plen == 70000 and clen != 7:
+                        continue
+                    n += 1
+                    command = bytes(0x61 + i for i in range(clen))
+                    payload = bytes((i * 7 + clen) & 255 for i in range(plen))
+                    me = Obj("network", "NetworkEnvelope", {})
+                    ev = Evaluator(ctx.repo, max_steps=4000000)
+                    ev.call("network:NetworkEnvelope.__init__", [command, payload], kwargs={"network": net}, self_obj=me)
+                    got = ev.call(spec_s, [], self_obj=me)
+                    want = ref(net, command, payload)
+                    if got != want:
+                        i = next((i for i in range(min(len(got), len(want))) if got[i] != want[i]), min(len(got), len(want))) if isinstance(got, bytes) else 0
+                        field = "magic" if i < 4 else "command" if i < 16 else "length" if i < 20 else "checksum" if i < 24 else "payload"
+                        bad = ("ser", "%s envelope with a %d-byte command and a %d-byte payload: the %s field differs from the protocol layout" % (net, clen, plen, field))
+                        break
+                    back = ev.call(spec_p, [FileStandIn(want)], kwargs={"network": net}, self_obj=C)
+                    if not isinstance(back, Obj) or back.attrs.get("command") != command or back.attrs.get("payload") != payload:
+                        bad = ("parse", "%s envelope with a %d-byte command and a %d-byte payload parses to command %r, %s payload" % (
+                            net, clen, plen, back.attrs.get("command") if isinstance(back, Obj) else back, "the same" if isinstance(back, Obj) and back.attrs.get("payload") == payload else "a different"))
+                        break
+                if bad:
+                    break
+            if bad:
+                break
+        ctx.count("cells", n)
+        if bad and bad[0] == "ser":
+            out.append(ctx.bad(spec_s, bad[1], fn_s, mod, key="envelope-cells:layout"))
+        else:
+            out.append(ctx.ok(spec_s, "%d (network, command length, payload length) cells equal magic ‖ command/12 ‖ length ‖ checksum ‖ payload" % n, fn_s, mod, key="envelope-cells:layout"))
+        if bad and bad[0] == "parse":
+            out.append(ctx.bad(spec_p, bad[1], fn, mod, key="envelope-cells:round-trip"))
+        elif not bad:
+            out.append(ctx.ok(spec_p, "every serialised cell parses back to its command and payload", fn, mod, key="envelope-cells:round-trip"))
+        # corruption and truncation
+        sample = ref("mainnet", b"headers", bytes(range(40, 52)))
+        bad, m = None, 0
+        for pos in range(len(sample)):
+            for flip in (0x01, 0x80, 0xFF):
+                m += 1
+                data = sample[:pos] + bytes([sample[pos] ^ flip]) + sample[pos + 1:]
+                field = "magic" if pos < 4 else "command" if pos < 16 else "length" if pos < 20 else "checksum" if pos < 24 else "payload"
+                try:
+                    r = Evaluator(ctx.repo, max_steps=4000000).call(spec_p, [FileStandIn(data)], kwargs={"network": "mainnet"}, self_obj=C)
+                    accepted = True
+                except Raised:
+                    accepted = False
+                if field == "command":
+                    want_cmd = data[4:16].strip(b"\x00")
+                    if not accepted or r.attrs.get("command") != want_cmd or r.attrs.get("payload") != sample[24:]:
+                        bad = "an envelope whose command byte %d is changed (the command is not covered by the checksum) %s" % (pos - 4, "is refused" if not accepted else "parses to other fields than the bytes carry")
+                elif accepted:
+                    bad = "an envelope with byte %d (the %s field) changed by xor %#04x is accepted" % (pos, field, flip)
+                if bad:
+                    break
+            if bad:
+                break
+        if not bad:
+            for cut in range(1, len(sample)):
+                m += 1
+                try:
+                    Evaluator(ctx.repo, max_steps=4000000).call(spec_p, [FileStandIn(sample[:cut])], kwargs={"network": "mainnet"}, self_obj=C)
+                    bad = "an envelope cut after %d of its %d bytes (%s) is accepted" % (cut, len(sample), "inside the payload" if cut >= 24 else "inside the header")
+                    break
+                except Raised:
+                    pass
+        ctx.count("cells", m)
+        out.append(ctx.bad(spec_p, bad, fn, mod, key="envelope-cells:corruption") if bad else
+                   ctx.ok(spec_p, "%d corruptions / truncations of a sample envelope: magic, length, checksum and payload changes and every truncation are refused" % m, fn, mod, key="envelope-cells:corruption"))
+    except Undecided as u:
+        return [ctx.err(spec_p, "envelope codec not evaluable: %s" % u, fn, mod)]
+    return out
+
+
+
+def c19_18(ctx):
+    """the fixed-layout messages evaluated against the protocol's byte layout (BIP157 / protocol documentation), with item counts on both sides
+    of the one-byte compact-size boundary: writers (getheaders, getdata, ping, pong, getcfilters, getcfheaders, getcfcheckpt) must produce the
+    reference bytes for distinct field values, readers (ping, pong, headers, cfilter, cfheaders, cfcheckpt) must return the reference fields
+    from the reference bytes, including the filter-header chain of cfheaders (double-SHA256(filter hash ‖ previous header)).  Version
+    messages are left to C19.5 (their port byte order is the recorded finding K2)"""
+    import hashlib
+    from sa.cells import ClassRef, Evaluator, FileStandIn, Obj, Raised, Undecided
+
+    def H(i):
+        return bytes((i * 13 + j) & 255 for j in range(32))
+
+    def cs(n):
+        return bytes([n]) if n < 0xFD else b"\xfd" + n.to_bytes(2, "little")
+
+    def dsha(b):
+        return hashlib.sha256(hashlib.sha256(b).digest()).digest()
+    out = []
+
+    def verdict(spec, key, bad, okmsg):
+        mod, fn = rl.get(ctx, spec)
+        out.append(ctx.bad(spec, bad, fn, mod, key="message-cells:" + key) if bad else ctx.ok(spec, okmsg, fn, mod, key="message-cells:" + key))
+
+    def new(modname, cls_, args=(), kwargs=None):
+        ev = Evaluator(ctx.repo, max_steps=4000000)
+        o = Obj(modname, cls_, {})
+        ev.call("%s:%s.__init__" % (modname, cls_), list(args), kwargs=kwargs or {}, self_obj=o)
+        return ev, o
+    try:
+        # ---- writers
+        bad = None
+        for version, n in ((70015, 1), (1, 2), (0x01020304, 252), (70015, 253)):
+            ctx.count("cells")
+            ev, o = new("network", "GetHeadersMessage", kwargs={"version": version, "num_hashes": n, "start_block": H(1), "end_block": H(2)})
+            got = ev.call("network:GetHeadersMessage.serialize", [], self_obj=o)
+            if got != version.to_bytes(4, "little") + cs(n) + H(1)[::-1] + H(2)[::-1]:
+                bad = "getheaders(version=%d, num_hashes=%d) is not version(4 LE) ‖ count ‖ start hash reversed ‖ stop hash reversed" % (version, n)
+                break
+        if not bad:
+            ev, o = new("network", "GetHeadersMessage", kwargs={"start_block": H(1)})
+            if ev.call("network:GetHeadersMessage.serialize", [], self_obj=o)[-32:] != bytes(32):
+                bad = "getheaders without a stop hash does not end in 32 zero bytes"
+        verdict("network:GetHeadersMessage.serialize", "getheaders", bad, "getheaders: 5 cells equal the protocol layout (count on both sides of 0xfd, default stop hash)")
+        bad = None
+        for n in (0, 1, 2, 252, 253):
+            ctx.count("cells")
+            ev, o = new("network", "GetDataMessage")
+            want = cs(n)
+            for i in range(n):
+                ev.call("network:GetDataMessage.add_data", [(i % 4) + 1 + (0x40000000 if i % 5 == 0 else 0), H(i)], self_obj=o)
+                want += ((i % 4) + 1 + (0x40000000 if i % 5 == 0 else 0)).to_bytes(4, "little") + H(i)[::-1]
+            if ev.call("network:GetDataMessage.serialize", [], self_obj=o) != want:
+                bad = "getdata with %d items is not count ‖ (type(4 LE) ‖ hash reversed)*" % n
+                break
+        verdict("network:GetDataMessage.serialize", "getdata", bad, "getdata: 0, 1, 2, 252, 253 items equal the protocol layout")
+        for cls_ in ("PingMessage", "PongMessage"):
+            ctx.count("cells")
+            nonce = bytes(range(1, 9))
+            r = Evaluator(ctx.repo).call("network:%s.parse" % cls_, [FileStandIn(nonce + b"zz")], self_obj=ClassRef("network", cls_))
+            bad = None
+            if not isinstance(r, Obj) or r.cls != cls_ or r.attrs.get("nonce") != nonce:
+                bad = "%s.parse does not return a %s carrying the 8 nonce bytes" % (cls_, cls_)
+            elif Evaluator(ctx.repo).call("network:%s.serialize" % cls_, [], self_obj=r) != nonce:
+                bad = "%s.serialize is not the 8 nonce bytes" % cls_
+            verdict("network:%s.parse" % cls_, cls_.lower(), bad, "%s: the 8-byte nonce parses and serialises unchanged" % cls_)
+        bad = None
+        for ft, height in ((0, 1), (1, 0x01020304), (255, 0)):
+            ctx.count("cells")
+            for cls_, has_height in (("GetCFiltersMessage", True), ("GetCFHeadersMessage", True), ("GetCFCheckPointMessage", False)):
+                kw = {"filter_type": ft, "stop_hash": H(9)}
+                if has_height:
+                    kw["start_height"] = height
+                ev, o = new("compactfilter", cls_, kwargs=kw)
+                got = ev.call("compactfilter:%s.serialize" % cls_, [], self_obj=o)
+                want = bytes([ft]) + (height.to_bytes(4, "little") if has_height else b"") + H(9)[::-1]
+                if got != want and not bad:
+                    bad = (cls_, "%s(filter_type=%d%s) is not type(1) ‖ %sstop hash reversed" % (cls_, ft, ", start_height=%d" % height if has_height else "", "height(4 LE) ‖ " if has_height else ""))
+        for cls_ in ("GetCFiltersMessage", "GetCFHeadersMessage", "GetCFCheckPointMessage"):
+            verdict("compactfilter:%s.serialize" % cls_, cls_.lower(), bad[1] if bad and bad[0] == cls_ else None, "%s: 3 cells equal the BIP157 layout" % cls_)
+        # ---- readers
+        bad = None
+        for n in (0, 1, 3, 252, 253):
+            ctx.count("cells")
+            hdr = lambda i: bytes((i + j) & 255 for j in range(80))
+            data = cs(n) + b"".join(hdr(i) + b"\x00" for i in range(n))
+            hooks = {("Block", "parse_header"): lambda cls, s=None, *a, **k: Obj("block", "Block", {"raw": s.read(80)})}
+            r = Evaluator(ctx.repo, method_hooks=hooks, max_steps=4000000).call("network:HeadersMessage.parse", [FileStandIn(data)], self_obj=ClassRef("network", "HeadersMessage"))
+            if not isinstance(r, Obj) or [h.attrs.get("raw") for h in r.attrs.get("headers", [])] != [hdr(i) for i in range(n)]:
+                bad = "a headers message with %d headers does not parse to those %d headers in order" % (n, n)
+                break
+        if not bad:
+            try:
+                Evaluator(ctx.repo, method_hooks=hooks).call("network:HeadersMessage.parse", [FileStandIn(cs(1) + bytes(80) + b"\x01")], self_obj=ClassRef("network", "HeadersMessage"))
+                bad = "a headers message whose header is followed by a non-zero transaction count is accepted"
+            except Raised:
+                pass
+        verdict("network:HeadersMessage.parse", "headers", bad, "headers: 0, 1, 3, 252, 253 headers parse in order; a non-zero transaction count is refused")
+        bad = None
+        for n in (0, 1, 2, 252, 253):
+            ctx.count("cells")
+            data = b"\x00" + H(7)[::-1] + H(8) + cs(n) + b"".join(H(20 + i) for i in range(n))
+            r = Evaluator(ctx.repo, max_steps=8000000).call("compactfilter:CFHeadersMessage.parse", [FileStandIn(data)], self_obj=ClassRef("compactfilter", "CFHeadersMessage"))
+            chain = H(8)
+            for i in range(n):
+                chain = dsha(H(20 + i) + chain)
+            a = r.attrs if isinstance(r, Obj) else {}
+            if a.get("filter_type") != 0 or a.get("stop_hash") != H(7) or a.get("previous_filter_header") != H(8) or a.get("filter_hashes") != [H(20 + i) for i in range(n)]:
+                bad = "a cfheaders message with %d filter hashes does not parse to type, stop hash (reversed), previous header and the hashes in order" % n
+                break
+            if a.get("last_header") != chain:
+                bad = "cfheaders with %d filter hashes: last_header is not the chain double-SHA256(filter hash ‖ previous header) folded over the hashes" % n
+                break
+        verdict("compactfilter:CFHeadersMessage.parse", "cfheaders", bad, "cfheaders: 0, 1, 2, 252, 253 hashes parse in order and chain to last_header")
+        bad = None
+        for n in (0, 1, 252, 253):
+            ctx.count("cells")
+            data = b"\x00" + H(7)[::-1] + cs(n) + b"".join(H(30 + i) for i in range(n))
+            r = Evaluator(ctx.repo, max_steps=4000000).call("compactfilter:CFCheckPointMessage.parse", [FileStandIn(data)], self_obj=ClassRef("compactfilter", "CFCheckPointMessage"))
+            a = r.attrs if isinstance(r, Obj) else {}
+            if a.get("filter_type") != 0 or a.get("stop_hash") != H(7) or a.get("filter_headers") != [H(30 + i) for i in range(n)]:
+                bad = "a cfcheckpt message with %d filter headers does not parse to type, stop hash (reversed) and the headers in order" % n
+                break
+        verdict("compactfilter:CFCheckPointMessage.parse", "cfcheckpt", bad, "cfcheckpt: 0, 1, 252, 253 headers parse in order")
+        bad = None
+        for fl in (1, 252, 253):
+            ctx.count("cells")
+            fbytes = bytes([0]) + bytes(fl - 1)
+            data = b"\x00" + H(5)[::-1] + cs(fl) + fbytes
+            hooks = {("CompactFilter", "parse"): lambda cls, key, b, *a, **k: Obj("compactfilter", "CompactFilter", {"key": key, "raw": b})}
+            r = Evaluator(ctx.repo, method_hooks=hooks).call("compactfilter:CFilterMessage.parse", [FileStandIn(data)], self_obj=ClassRef("compactfilter", "CFilterMessage"))
+            a = r.attrs if isinstance(r, Obj) else {}
+            cf = a.get("cf")
+            if a.get("filter_type") != 0 or a.get("block_hash") != H(5) or a.get("filter_bytes") != fbytes:
+                bad = "a cfilter message with %d filter bytes does not parse to type, block hash (reversed) and the filter bytes" % fl
+                break
+            if not isinstance(cf, Obj) or cf.attrs.get("key") != H(5)[::-1][:16] or cf.attrs.get("raw") != fbytes:
+                bad = "cfilter: the filter is not decoded with the first 16 bytes of the block hash in serialised order as SipHash key"
+                break
+            if Evaluator(ctx.repo).call("compactfilter:CFilterMessage.hash", [], self_obj=r) != dsha(fbytes):
+                bad = "cfilter: hash() is not the double-SHA256 of the filter bytes"
+                break
+        verdict("compactfilter:CFilterMessage.parse", "cfilter", bad, "cfilter: 1, 252, 253 filter bytes parse; key = block hash LE[:16]; hash() = sha256d(filter bytes)")
+    except Raised as x:
+        mod, fn = rl.get(ctx, "network:NetworkEnvelope.parse")
+        return out + [ctx.bad("network:NetworkEnvelope.parse", "a message codec raises %s on reference bytes / field values" % x.name, fn, mod, key="message-cells:raises")]
+    except Undecided as u:
+        mod, fn = rl.get(ctx, "network:NetworkEnvelope.parse")
+        return out + [ctx.err("network:NetworkEnvelope.parse", "message codecs not evaluable: %s" % u, fn, mod)]
+    return out
+
+
+
 OBLIGATIONS = [
+    ("C19.18", "CELLS messages", c19_18),
+    ("C19.17", "CELLS envelope", c19_17),
     ("C19.16", "LAYOUT vs spec (shared C17.5)", c19_16),
     ("C19.15", "SHARED", c19_15),
     ("C19.14", "SET-ORDER", c19_14),
